@@ -6,6 +6,7 @@ import (
 	"go/constant"
 	"go/token"
 	"go/types"
+	"strings"
 
 	"verif/checker/cfgx"
 )
@@ -259,4 +260,195 @@ func lenFactR(info *types.Info, fa cfgx.Fact, resolve func(ast.Expr) ast.Expr) (
 		return lo, false, k <= 0
 	}
 	return nil, false, false
+}
+
+// ---------------------------------------------------------------- IX1
+
+// RuleIX1: a parameter indexed at a fixed end (p[0], p[len(p)-1]) is never empty. Either
+// the function tests the length first, or every static caller passes something that is
+// non-empty by construction: the value of a scanner lexeme as written (a lexeme spans
+// begin..end inclusive, S1c/S1i), a constant-length slice, a non-empty literal, a value
+// the caller tested, or its own parameter under the same obligation. A transformation
+// slipped in between (Unquote, a trim) can empty the value and turns the index into a
+// panic on a document such as `INCLUDE ""`.
+func RuleIX1(c *Ctx) {
+	sc := c.Run.Begin("IX1", "every string/byte-slice parameter that is indexed at a fixed end without a length test in the function receives, at every static call site, a value that is non-empty by construction (raw lexeme value, constant-length slice, literal, tested value)", 2)
+	defer sc.End()
+	lexT := c.Named("scanner", "Lexeme")
+	perFn := map[*ast.FuncDecl]int{}
+	var nonEmptyArg func(cs callSite, arg ast.Expr, depth int) (bool, string)
+	nonEmptyArg = func(cs callSite, arg ast.Expr, depth int) (bool, string) {
+		info := cs.Pk.TypesInfo
+		cf := c.CFG(cs.Pk, cs.Body)
+		e := ast.Unparen(cf.Resolve(arg))
+		// literal
+		if tv, ok := info.Types[e]; ok && tv.Value != nil && tv.Value.Kind() == constant.String {
+			if constant.StringVal(tv.Value) != "" {
+				return true, "non-empty literal"
+			}
+			return false, "the empty literal"
+		}
+		// conversions string(x) / []byte(x)
+		for {
+			call, ok := e.(*ast.CallExpr)
+			if !ok || len(call.Args) != 1 {
+				break
+			}
+			if tv, isT := info.Types[call.Fun]; !isT || !tv.IsType() {
+				break
+			}
+			e = ast.Unparen(cf.Resolve(call.Args[0]))
+		}
+		// constant-length slice
+		if sl, ok := e.(*ast.SliceExpr); ok && sl.High != nil {
+			lo, hi := int64(0), int64(-1)
+			if sl.Low != nil {
+				if tv, ok := info.Types[sl.Low]; ok && tv.Value != nil {
+					lo, _ = constant.Int64Val(tv.Value)
+				} else {
+					lo = -1
+				}
+			}
+			if tv, ok := info.Types[sl.High]; ok && tv.Value != nil {
+				hi, _ = constant.Int64Val(tv.Value)
+			}
+			if lo >= 0 && hi > lo {
+				return true, "constant-length slice"
+			}
+		}
+		// raw lexeme value: X.Value() or X.Value().String()
+		chain := e
+		if call, ok := chain.(*ast.CallExpr); ok {
+			if f := Callee(info, call); f != nil && f.Name() == "String" && len(call.Args) == 0 {
+				chain = ast.Unparen(cf.Resolve(Recv(call)))
+			}
+		}
+		if call, ok := chain.(*ast.CallExpr); ok {
+			if f := Callee(info, call); f != nil && f.Name() == "Value" && lexT != nil && recvNamedOf(f) == lexT {
+				return true, "the value of a lexeme as written"
+			}
+		}
+		// tested at the call site
+		gen := func(fa cfgx.Fact) bool {
+			lo, nonEmpty, _ := lenFactR(info, fa, cf.Resolve)
+			if lo != nil && nonEmpty && cf.SameResolved(lo, arg) {
+				return true
+			}
+			if be, ok := ast.Unparen(fa.Expr).(*ast.BinaryExpr); ok && (be.Op == token.NEQ || be.Op == token.EQL) {
+				for _, pair := range [][2]ast.Expr{{be.X, be.Y}, {be.Y, be.X}} {
+					if tv, ok := info.Types[pair[1]]; ok && tv.Value != nil && tv.Value.Kind() == constant.String && constant.StringVal(tv.Value) == "" && cf.SameResolved(pair[0], arg) {
+						return (be.Op == token.NEQ) == fa.Truth
+					}
+				}
+			}
+			return false
+		}
+		if cf.MustAt(cs.Call, gen, nil, nil) {
+			return true, "tested non-empty by the caller"
+		}
+		// the caller's own parameter
+		if id, ok := e.(*ast.Ident); ok && depth < 3 {
+			if idx := paramIndexOf(info, cs.Decl, info.ObjectOf(id)); idx >= 0 && cs.Lit == nil && !assignedAnywhere(info, cs.Decl.Body, info.ObjectOf(id)) {
+				self, _ := info.Defs[cs.Decl.Name].(*types.Func)
+				sites := c.callSitesOf(self)
+				if self != nil && len(sites) > 0 && !c.usedAsValue(self) {
+					for _, up := range sites {
+						if idx >= len(up.Call.Args) {
+							return false, "variadic or unmapped argument at " + c.P.Pos(up.Call.Pos())
+						}
+						if ok, why := nonEmptyArg(up, up.Call.Args[idx], depth+1); !ok {
+							return false, why
+						}
+					}
+					return true, "every caller of " + self.Name() + " passes a non-empty value"
+				}
+			}
+		}
+		return false, types.ExprString(arg) + " at " + c.P.Pos(cs.Call.Pos()) + " is not known to be non-empty"
+	}
+	c.P.Funcs(func(pk *pkgT, fd *ast.FuncDecl) {
+		if strings.Contains(c.P.Pos(fd.Pos()), "internal/") {
+			return
+		}
+		info := pk.TypesInfo
+		self, _ := info.Defs[fd.Name].(*types.Func)
+		cf := c.CFG(pk, fd.Body)
+		seen := map[types.Object]bool{}
+		inspectNoLit(fd.Body, func(n ast.Node) bool {
+			ix, ok := n.(*ast.IndexExpr)
+			if !ok {
+				return true
+			}
+			id, ok := ast.Unparen(ix.X).(*ast.Ident)
+			if !ok {
+				return true
+			}
+			obj := info.ObjectOf(id)
+			pidx := paramIndexOf(info, fd, obj)
+			if pidx < 0 || seen[obj] {
+				return true
+			}
+			switch u := obj.Type().Underlying().(type) {
+			case *types.Basic:
+				if u.Info()&types.IsString == 0 {
+					return true
+				}
+			case *types.Slice:
+				if !isByte(u.Elem()) {
+					return true
+				}
+			default:
+				return true
+			}
+			// fixed end: constant index, or len(p)-K
+			fixed := false
+			if tv, ok := info.Types[ix.Index]; ok && tv.Value != nil {
+				fixed = true
+			} else if be, ok := ast.Unparen(ix.Index).(*ast.BinaryExpr); ok && be.Op == token.SUB {
+				if lo, isLen := lengthExpr(info, cf.Resolve(be.X)); isLen && cfgx.SameExpr(info, lo, ix.X) {
+					fixed = true
+				}
+			}
+			if !fixed {
+				return true
+			}
+			seen[obj] = true
+			perFn[fd]++
+			key := fmt.Sprintf("%s:%s", c.P.DeclName(fd), id.Name)
+			// tested in the function?
+			gen := func(fa cfgx.Fact) bool {
+				lo, nonEmpty, _ := lenFactR(info, fa, cf.Resolve)
+				return lo != nil && nonEmpty && cfgx.SameExpr(info, ast.Unparen(lo), ix.X)
+			}
+			if cf.MustAt(ix, gen, nil, nil) || assignedAnywhere(info, fd.Body, obj) {
+				sc.Holds(key, c.P.Pos(ix.Pos()), "the length is tested before the index (or the parameter is re-assigned first)")
+				return true
+			}
+			if self == nil || c.usedAsValue(self) {
+				sc.Undecided(key, c.P.Pos(ix.Pos()), "the function is used as a value: its callers are not known")
+				return true
+			}
+			sites := c.callSitesOf(self)
+			if len(sites) == 0 {
+				if ast.IsExported(fd.Name.Name) {
+					sc.Info(key, c.P.Pos(ix.Pos()), "exported and not called inside the library: the obligation is the API user's")
+				} else {
+					sc.Holds(key, c.P.Pos(ix.Pos()), "never called")
+				}
+				return true
+			}
+			for _, cs := range sites {
+				if pidx >= len(cs.Call.Args) {
+					sc.Undecided(key, c.P.Pos(cs.Call.Pos()), "unmapped argument")
+					return true
+				}
+				if ok, why := nonEmptyArg(cs, cs.Call.Args[pidx], 0); !ok {
+					sc.Violation(key, c.P.Pos(ix.Pos()), fmt.Sprintf("%s is indexed at a fixed end without a length test, and a caller can pass an empty value: %s - an index-out-of-range panic instead of a diagnostic", types.ExprString(ix), why))
+					return true
+				}
+			}
+			sc.Holds(key, c.P.Pos(ix.Pos()), fmt.Sprintf("all %d call sites pass a value that is non-empty by construction", len(sites)))
+			return true
+		})
+	})
 }
